@@ -62,7 +62,9 @@ MkQE(kind, v, sub, shape, h, si, alt) ==
      !.cons = IF alt = 0 THEN 1 ELSE 6,
      !.values = IF Bit(sub, 1) THEN Shapes[shape] ELSE <<>>,
      !.skipmeta = IF Bit(sub, 2) THEN 1 ELSE 0,
-     !.pagesize = IF Bit(sub, 4) THEN PagesOf[1 + (alt % Len(PagesOf))] ELSE 0,
+     \* without the page-size option the caller may still have said "no paging" with a value <= 0
+     !.pagesize = IF Bit(sub, 4) THEN PagesOf[1 + (alt % Len(PagesOf))]
+                  ELSE CASE alt % 3 = 1 -> -1 [] alt % 3 = 2 -> (-2147483647) - 1 [] OTHER -> 0,
      !.pstate = IF Bit(sub, 8) THEN (IF alt % 2 = 0 THEN <<0, 16, 255>> ELSE <<9>>) ELSE <<>>,
      !.serial = IF Bit(sub, 16) THEN (IF alt % 2 = 0 THEN 8 ELSE 9) ELSE 0,
      !.ts = IF Bit(sub, 32) THEN [set |-> 1, now |-> 0, b |-> IF alt % 2 = 0 THEN <<0, 5, 209, 78, 154, 59, 128, 1>>
